@@ -30,6 +30,8 @@ def check(chk, thorough=False):
     chk.run('C04.f', 'R-FLOW', 'each XFER_ACK echoes the segment id, the flags and the length after the write', lambda ob: c04f(tree, ob), floor=2)
     chk.run('C04.g', 'R-WHO', 'transfer ids come from a counter that only increases', lambda ob: c04g(tree, ob), floor=3)
     chk.run('C04.i', 'R-FLOW', 'the octets written are exactly the encoded messages in order: byte buffers only appended and prefix-dropped by what was accepted (= C01.b)', lambda ob: _c01b(tree, ob), floor=7)
+    chk.run('C04.j', 'R-SCHEMA', 'a message is complete only with all of its length-prefixed data, also when the data has not arrived yet (= C07.c)', lambda ob: __import__('sa.props.c07', fromlist=['c07c']).c07c(tree, ob), floor=6)
+    chk.run('C04.k', 'R-ORDER', 'a transfer is announced with the length it will really send: the file is measured at its end and read from its start (= C01.c, measurement)', lambda ob: __import__('sa.props.c01', fromlist=['tx_measure']).tx_measure(tree, ob), floor=1)
     chk.run('C04.h', 'R-SCHEMA', 'message type codes and field layouts equal RFC 9174', lambda ob: c04h(tree, ob), floor=7)
 
 
